@@ -426,6 +426,8 @@ class ProgGen:
         self.refs = {}  # handle -> list[(name, id)] snapshot of visible cols at creation
         self.features = set()
         self.names_used = 0
+        self.pool = []  # (expression node with a share id, family): reused as ONE python object in later verbs
+        self.nshare = 0
 
     # -- handles -------------------------------------------------------------------------
     def new_handle(self):
@@ -521,7 +523,7 @@ class ProgGen:
             kind = rng.choice(kinds)
             fam = rng.choice(["int", "int", "float", "bool", "str"])
             if kind == "e":
-                e = self.eg.expr(fam, sc, depth)
+                e = self.shared_or_new(fam, sc, depth)
             elif kind == "a":
                 pb = None
                 if rng.random() < 0.4 and not t.group:
@@ -548,10 +550,24 @@ class ProgGen:
             return None
         return {"in": h, "out": self.new_handle(), "verb": "mutate", "kw": kw}
 
+    def shared_or_new(self, fam, sc, depth):
+        """Either a fresh expression or one that an earlier verb already used (same object, C10 / C02)."""
+        rng = self.rng
+        cands = [e for e, f in self.pool if f == fam]
+        if cands and rng.random() < 0.25:
+            self.features.add("shared_expr")
+            return rng.choice(cands)
+        e = self.eg.expr(fam, sc, depth)
+        if e.get("k") in ("fn", "case", "cast") and rng.random() < 0.3:
+            self.nshare += 1
+            e["sh"] = self.nshare
+            self.pool.append((e, fam))
+        return e
+
     def step_filter(self, h, depth=2):
         sc = self.scope(h)
         n = self.rng.choice([1, 1, 1, 2, 0]) if self.rng.random() < 0.9 else 3
-        return {"in": h, "out": self.new_handle(), "verb": "filter", "preds": [self.eg.expr("bool", sc, depth) for _ in range(n)]}
+        return {"in": h, "out": self.new_handle(), "verb": "filter", "preds": [self.shared_or_new("bool", sc, depth) for _ in range(n)]}
 
     def step_select(self, h):
         rng = self.rng
@@ -800,11 +816,48 @@ ALL_WEIGHTS = {
 }
 
 
+def reuse_block(g, h):
+    """One expression OBJECT with a C.<name> leaf used in two verb calls between which the meaning of the name
+    changes (overwrite / rename swap) — the second use must see the table as it is then."""
+    rng = g.rng
+    t = g.rr.env[h]
+    ints = [n for n, i in t.vis if t.cols[i].fam == "int"]
+    if len(ints) < 2:
+        return h
+    n, m = rng.sample(ints, 2)
+    g.nshare += 1
+    form = rng.choice(["overwrite_twice", "filter_mutate_filter", "rename_swap", "other_verb"])
+    if form == "overwrite_twice":
+        d = fn(rng.choice(["add", "mul", "sub"]), cname(n), lit(rng.choice([1, 2, 3])), sh=g.nshare)
+        steps = [{"verb": "mutate", "kw": [[n, d]]}, {"verb": "mutate", "kw": [[n, d]]}]
+    elif form == "filter_mutate_filter":
+        p = fn(rng.choice(["gt", "lt", "ge"]), cname(n), lit(rng.choice([-1, 0, 2])), sh=g.nshare)
+        steps = [{"verb": "filter", "preds": [p]}, {"verb": "mutate", "kw": [[n, fn("sub", cname(n), lit(2))]]}, {"verb": "filter", "preds": [p]}]
+    elif form == "rename_swap":
+        i = fn("add", cname(n), lit(1), sh=g.nshare)
+        steps = [{"verb": "mutate", "kw": [["ru1", i]]}, {"verb": "rename", "map": [[n, m], [m, n]]}, {"verb": "mutate", "kw": [["ru2", i]]}]
+    else:
+        i = fn("mul", cname(n), cname(m), sh=g.nshare)
+        steps = [{"verb": "arrange", "by": [{"e": i, "desc": False, "nl": True}]}, {"verb": "mutate", "kw": [[m, fn("neg", cname(m))]]},
+                 {"verb": "mutate", "kw": [["ru3", i]]}]
+    for st in steps:
+        st = dict(st, **{"in": h, "out": g.new_handle()})
+        if not g.try_step(st):
+            g.nh -= 1
+            break
+        h = st["out"]
+    g.features.add("shared_expr")
+    return h
+
+
 def gen_rowverbs(seed):
     g = ProgGen(seed)
     cols = ["k", "g", "x", "y", "f", "b", "s"] + (["d"] if g.rng.random() < 0.4 else [])
     h0 = g.add_table("t", cols=cols)
     h = g.chain(h0, g.rng.randint(1, 8), ROWVERB_WEIGHTS, depth=g.rng.choice([1, 2, 2, 3]))
+    if g.rng.random() < 0.25 and not g.rr.env[h].group:
+        h = reuse_block(g, h)
+        h = g.chain(h, g.rng.randint(0, 2), ROWVERB_WEIGHTS, depth=1)
     probes = [s["out"] for s in g.steps] or [h0]
     return g.finish(probes)
 
@@ -849,6 +902,8 @@ def gen_general(seed, max_verbs=10, joins=True):
                             h = st["out"]
                             g.features.add("union")
         h = g.chain(h, rng.randint(0, 3), ALL_WEIGHTS, depth=2)
+    if rng.random() < 0.12 and not g.rr.env[h].group:
+        h = reuse_block(g, h)
     probes = [s["out"] for s in g.steps if s["verb"] not in ("group_by",)][-4:] or [h0]
     if h not in probes:
         probes.append(h)
@@ -1036,6 +1091,29 @@ def gen_union(seed):
         if not g.try_step(st):
             return g.finish([h])
         hs.append(st["out"])
+    if len(hs) >= 2 and len(cols) >= 2 and rng.random() < 0.3:
+        # right operand: select away column c1, then rename another column onto its name -> a hidden and a visible
+        # column share the name; the visible columns come in a different order than on the left
+        base = hs[-1]
+        t = g.rr.env[base]
+        c1, c2 = cols[0], cols[1]
+        if t.cols[t.name_to_id()[c1]].fam == t.cols[t.name_to_id()[c2]].fam:
+            others = [c for c in cols if c not in (c1, c2)]
+            a1 = {"in": base, "out": g.new_handle(), "verb": "select", "cols": [cname(c) for c in [c2] + others]}
+            if g.try_step(a1):
+                tmpn = c2 + "_t"
+                a2 = {"in": a1["out"], "out": g.new_handle(), "verb": "rename", "map": [[c2, c1]]}
+                a3 = {"in": a1["out"], "out": g.new_handle(), "verb": "mutate", "kw": [[tmpn, cname(c2)]]}
+                if g.try_step(a2):
+                    # the table now lacks c2; re-create it from the (renamed) column so that the names match again
+                    a4 = {"in": a2["out"], "out": g.new_handle(), "verb": "mutate", "kw": [[c2, cname(c1)]]}
+                    if g.try_step(a4):
+                        order = [c2] + others + [c1]
+                        a5 = {"in": a4["out"], "out": g.new_handle(), "verb": "select", "cols": [cname(c) for c in order]}
+                        if g.try_step(a5):
+                            hs[-1] = a5["out"]
+                            g.features.add("union_hidden_same_name")
+                _ = a3
     h = hs[0]
     probes = []
     for r in hs[1:]:
@@ -1411,15 +1489,16 @@ def gen_equiv(seed, which=None):
 # ---------------------------------------------------------------------------------------------
 
 SUBQ_ALPHABET = ["filter", "filter_win", "mutate", "mutate_win", "mutate_agg", "summarize", "slice_head", "arrange", "group_by", "join", "union", "select", "rename"]
+SUBQ_ALPHABET_REFS = SUBQ_ALPHABET + ["use_hidden_win", "select", "filter"]
 
 
 def _c_only(exprs):
     return exprs
 
 
-def gen_subq(seed, order=None, alias_at=()):
-    """A pipeline over the C08 alphabet (name-based references only), optionally with alias() inserted."""
-    g = ProgGen(seed, cfg={"c_only": True})
+def gen_subq(seed, order=None, alias_at=(), c_only=True):
+    """A pipeline over the C08 alphabet (name-based references only when c_only), optionally with alias() inserted."""
+    g = ProgGen(seed, cfg={"c_only": c_only})
     rng = g.rng
     h = g.add_table("t", cols=["k", "g", "x", "y", "f", "b", "s"])
     order = order or [rng.choice(SUBQ_ALPHABET) for _ in range(rng.randint(2, 6))]
@@ -1440,16 +1519,25 @@ def gen_subq(seed, order=None, alias_at=()):
             if not live:
                 continue
             st = {"in": h, "out": g.new_handle(), "verb": "filter", "preds": [fn("gt", cname(rng.choice(live)), lit(1))]}
+        elif v == "use_hidden_win":
+            # reference a (possibly hidden) window column through the handle that created it
+            cands = [(hh, n) for hh, n in g.win_refs if g.rr.env[hh].name_to_id().get(n) in t.cols] if hasattr(g, "win_refs") else []
+            if not cands:
+                continue
+            hh, n = rng.choice(cands)
+            st = {"in": h, "out": g.new_handle(), "verb": "mutate", "kw": [[g.fresh_name(t, 0), col(hh, n)]]}
         elif v == "mutate":
             st = g.step_mutate(h, ("e",), 1)
         elif v == "mutate_win":
             st = g.step_mutate(h, ("w",), 1)
             if st is not None:
                 win_names += [n for n, _ in st["kw"]]
+                g.win_refs = getattr(g, "win_refs", []) + [(st["out"], n) for n, _ in st["kw"]]
         elif v == "mutate_agg":
             st = g.step_mutate(h, ("a",), 1)
             if st is not None:
                 win_names += [n for n, _ in st["kw"]]
+                g.win_refs = getattr(g, "win_refs", []) + [(st["out"], n) for n, _ in st["kw"]]
         elif v == "summarize":
             if not t.group and rng.random() < 0.6:
                 gb = g.step_group_by(h)
